@@ -84,6 +84,15 @@ def run_trace(tid, shape, events):
     FakeTime.now = 0
     pf_mod.time = FakeTime()
     kind = shape["kind"]
+    # the helpers look at a button and at the clock, not at what mode the robot is in
+    import wpilib.simulation
+    dss = wpilib.simulation.DriverStationSim
+    mode = tid % 4
+    dss.setDsAttached(True)
+    dss.setEnabled(mode in (1, 2))
+    dss.setAutonomous(mode == 1)
+    dss.setTest(mode == 3)
+    dss.notifyNewData()
     joy = RealJoy() if tid % 2 == 0 and kind in ("toggle", "bd") else Joy()
     cap = Capture()
     wlog = logging.getLogger("simple_watchdog")
@@ -139,7 +148,7 @@ def run_events(tid, shape, events, obj, joy, cap):
         out = {"r": False}
         try:
             if k == "tick":
-                hs.stepTimingAsync(ev["d"] * TICK_US)
+                hs.stepTimingAsync(ev["d"] * (shape.get("tickus", TICK_US) if kind == "wd" else TICK_US))
                 FakeTime.now += ev["d"]
             elif k == "sample":
                 joy.level = bool(ev["level"])
@@ -155,7 +164,9 @@ def run_events(tid, shape, events, obj, joy, cap):
             elif k == "rec":
                 # (every third record carries exception information, as logger.exception() / exc_info=True produce)
                 NREC[0] += 1
-                rec = logging.LogRecord("x", ev["lvl"], __file__, 1, "msg", None, EXC_INFO if NREC[0] % 3 == 0 else None)
+                # (one filter serves several loggers: the limit is per filter, not per logger name)
+                rec = logging.LogRecord(("x", "robot", "components.arm", None)[NREC[0] % 4], ev["lvl"], __file__, 1, "msg", None,
+                                        EXC_INFO if NREC[0] % 3 == 0 else None)
                 out = {"r": bool(obj.filter(rec))}
             elif k == "reset":
                 obj.reset()
@@ -224,15 +235,18 @@ def random_events(rng, shape):
             evs.append({"e": "reset"} if r < 0.17 else {"e": "enable"} if r < 0.2 else {"e": "expired"} if r < 0.42
                        else {"e": "disable"} if r < 0.45 else {"e": "epoch"} if r < 0.6 else {"e": "gettime"} if r < 0.64
                        else {"e": "gettimeout"} if r < 0.66
-                       else {"e": "settimeout", "t": rng.choice([5000, 20000, 31250])} if r < 0.7 else {"e": "print"})
+                       else {"e": "settimeout", "t": rng.choice([5000, 20000, 31250, 7 * shape.get("tickus", TICK_US),
+                                                                 70 * shape.get("tickus", TICK_US)])} if r < 0.7
+                       else {"e": "print"})
     return evs
 
 
 def gen_shape(rng):
     kind = rng.choice(["toggle", "toggle", "bd", "pf", "wd"])
     period = rng.choice([0, 2, 3, 8, 32, 64]) if kind == "toggle" else rng.choice([1, 2, 3, 8, 32, 64])
-    return {"kind": kind, "period": period, "bypass": rng.choice([0, 10, 20, 30, 30, 40, 50]),
-            "timeout": rng.choice([5000, 20000, 46875])}
+    tickus = rng.choice([15625, 15625, 10007, 3333])
+    return {"kind": kind, "period": period, "bypass": rng.choice([0, 10, 20, 30, 30, 40, 50]), "tickus": tickus,
+            "timeout": rng.choice([5000, 20000, 46875, 2 * tickus, 13 * tickus, 70 * tickus])}
 
 
 def main():
